@@ -61,19 +61,17 @@ def scopes(quick, avoid_sim):
         # indent width, break kind) on every tree <= 3 nodes
         ("decor", cfg_text("{1, 31}", 3, 1, styles=few, decor=2, indents="{1, 2, 4}", breaks=br3, flags=ALL_FLAGS), None),
         # two documents in a stream
-        ("docs", cfg_text("{1, 31}", 3 if quick else 4, 2, styles='{"plain", "lit"}', decor=1 if quick else 2, indents="{1, 2}",
+        ("docs", cfg_text("{1, 31}", 3, 2, styles='{"plain", "lit"}', decor=1 if quick else 2, indents="{1, 2}",
                           breaks=br3, flags=ALL_FLAGS), None),
         # anchors and aliases: 4 nodes, budget 2 = one anchor + one alias
-        ("alias", cfg_text("{1}" if quick else "{1, 14}", 4, 1, styles='{"plain"}' if quick else '{"plain", "single", "fold"}',
-                           decor=2 if quick else 3, flags='{"cmp", "zi"}'), None),
+        ("alias", cfg_text("{1}" if quick else "{1, 14}", 4, 1, styles='{"plain"}' if quick else '{"plain", "single"}',
+                           decor=2, flags='{"cmp", "zi"}'), None),
     ]
     # quoted / plain keys after empty values in a root mapping (5 nodes, block only)
     out.append(("keys", cfg_text("{1, 3}", 5, 1, styles='{"plain", "double"}', coll='{"block"}', decor=0), None))
     if not quick:
         out.append(("styles4", cfg_text("{1, 3, 6, 13, 31, 11}", 4, 1), None))
         out.append(("words", cfg_text("{2, 4, 8, 14, 16, 26, 34, 36}", 3, 1, decor=1, breaks=br3), None))
-        out.append(("decor3", cfg_text("{1, 3, 31}", 3, 1, styles=few, decor=3, indents="{1, 2, 4}", breaks=br3,
-                                       flags=ALL_FLAGS), None))
     sim_cfg = cfg_text(FULL_PAL, 40, 3, decor=1000, indents="{1, 2, 3, 4}", breaks=br3, flags=ALL_FLAGS,
                        avoid=avoid_sim, sim=True)
     out.append(("sim", sim_cfg, "num=%d" % (400 if quick else 6000)))
@@ -195,6 +193,8 @@ def schema_stage(ctx):
 
 def cli_stage(ctx, samples_path, validate=False, limit=60):
     """`succinctly yq -o json -I0 .` (and --validate) on sampled documents."""
+    if os.environ.get("VERIF_DEV_NOCLI"):      # development aid (mutation testing): skip the CLI build
+        return 0
     cli = vlib.cli_bin()
     n = 0
     t0 = __import__("time").time()
@@ -259,4 +259,12 @@ def run(ctx):
     ]
 
 
-# MUTANTS: see the block at the end of this file (filled in after mutation testing)
+# MUTANTS (scratch worktree /tmp/wt-c14, `VERIF_REPO=... VERIF_DEV_REUSE=1 VERIF_DEV_NOCLI=1 ./check C14`:
+# the behaviours TLC generated for the unchanged tree are replayed against the mutated loader;
+# MC stage and CLI stage skipped for speed) -- all four CAUGHT (exit 1):
+#   M1 yaml/scalar.rs  resolve_plain: "Null" no longer null            -> value mismatch on plain `Null` (sim scopes)
+#   M2 yaml/light.rs   decode_block_literal: CR not a line break       -> `|+\r\n    a\r\n    b\r\n` loads "a\r\nb\r\n"
+#   M3 yaml/light.rs   decode_block_folded: blank run worth N+1 (#329) -> `>\n  a\n\n  b\n` loads "a\n\nb\n"
+#   M4 yaml/light.rs   decode_single_quoted: `''` not collapsed        -> 'it''s' loads "it''s"
+# Note: M1 is caught by the load replay (palette entry 41); the exhaustive resolve_plain stage
+# reaches 4-character strings only in the thorough tier.
